@@ -278,6 +278,9 @@ def cmd_replay(args) -> int:
         print("  |", line)
     hit = [x for x in vs if x["class"] == want]
     if hit:
+        kf = C.KnownFindings().match(obj["property"], hit[0].get("finding_key") or f"{obj['engine']}:{want}")
+        if kf is not None:
+            print(f"KNOWN-FINDING: property={obj['property']} key={hit[0].get('finding_key')} (this replay reproduces a listed finding)")
         print(f"VIOLATION property={obj['property']} replay={args.path}")
         print(f"  class={want} detail={hit[0].get('detail', '')[:500]}")
         if obj.get("digest") and res.get("digest") != obj["digest"]:
